@@ -27,6 +27,8 @@ def jobs(tier):
     for (t, r, c) in TYPES if tier != "quick" else TYPES[:8]:
         if t in ("VNACAL_T16", "VNACAL_U16"):
             continue        # a 1x1 reflect measurement is not a valid shape for the 16-term types
+        if (r, c) != (2, 2):
+            continue        # the history measures reflects on ports 1 and 2: both must be rows and columns (false alarm in the first thorough run, DESIGN 8.15)
         for bad in ((-5, 3, 100) if (t, r, c) == ("VNACAL_T8", 2, 2) or tier != "quick" else (3,)):
             d = CUT + ["-DCAL_TYPE=%s" % t, "-DCAL_ROWS=%d" % r, "-DCAL_COLS=%d" % c, "-DBAD_HANDLE=(%d)" % bad]
             J.append(V.Job("add_counts.%s_%dx%d_bad%s" % (t[7:], r, c, str(bad).replace("-", "m")), H, "h_add_counts", BASE, defines=d, unwind=14,
